@@ -399,7 +399,21 @@ func RunReplays(harnesses map[string]func()) {
 			}()
 			h()
 		}()
-		out := map[string]any{"file": filepath.Base(f), "status": status, "reached": reached, "asserts": asserts, "observe": observe, "missing": missing}
+		var unused []string
+		for name := range rec.Inputs {
+			base := name
+			k := 0
+			if i := strings.LastIndex(name, "#"); i > 0 {
+				if n, err := strconv.Atoi(name[i+1:]); err == nil {
+					base, k = name[:i], n
+				}
+			}
+			if counts[base] <= k {
+				unused = append(unused, name)
+			}
+		}
+		sort.Strings(unused)
+		out := map[string]any{"file": filepath.Base(f), "status": status, "reached": reached, "asserts": asserts, "observe": observe, "missing": missing, "unused": unused}
 		j, _ := json.Marshal(out)
 		fmt.Printf("REPLAY %s\n", j)
 		cur = nil
